@@ -90,6 +90,19 @@ def run(rep, tier, seed, replay):
                 else:
                     rep.violation("oracle", "the displayed postfix of the partition does not rebuild into the same program (%s)" % tag, {"expr": e, "postfix": unhex(pf["post"])}, impl=pl[:300])
 
+    # ---- owned matched text on LONG candidate paths (offsets beyond 16 and near 32 bits of bytes are the same offsets)
+    if replay is None:
+        longs = [("**/{*.{go,rs}}", "component/" * 7000 + "lib.rs"), ("*/*.{log,txt}", "d" * 40000 + "/" + "f" * 40000 + ".log"),
+                 ("**/*", "a/" * 33000 + "b"), ("<*/:1,>*.rs", "é/" * 22000 + "x.rs"), ("*", "x" * 70000), ("**/a/**", "b/" * 20000 + "a/" + "c/" * 20000 + "d")]
+        for (e, pth), line in zip(longs, h.ask(["M %s %s" % (hexs(e), hexs(pth)) for e, pth in longs], timeout=120)):
+            if line.startswith("match") and " owned=same " in line + " ":
+                rep.stats["long candidate path (%d KiB): owned captures = borrowed captures" % (len(pth.encode()) // 1024)] += 1
+            elif line.startswith("nomatch"):
+                rep.stats["long candidate path: no match"] += 1
+            else:
+                rep.violation("oracle", "on a candidate path of %d bytes the owned matched text does not return the captures of the borrowed text it was made from (or the conversion panics)" % len(pth.encode()),
+                              {"expr": e, "path_bytes": len(pth.encode()), "path_unit": pth[:12], "what": "long-owned"}, impl=line[:200])
+        rep.evaluations += len(longs)
     # ---- the constant constructors (Glob::empty, Glob::tree) and `any` over build results instead of text
     if replay is None:
         import random as _r
